@@ -779,6 +779,7 @@ type cgenSeed struct {
 	devs []cgenDev
 	enc  []byte
 	unit uint64 // global unit index (set by the checks)
+	structural bool // every deviation changes the shape of the encoding (see cgenDevStructural)
 }
 
 // Val rebuilds the seed value (*T) from its deviations.
@@ -792,6 +793,7 @@ type cgenSeedRec struct {
 	D []cgenDev `json:"d,omitempty"`
 	E string    `json:"e"`
 	U uint64    `json:"u"`
+	S bool      `json:"s,omitempty"`
 }
 
 // cgenSaveSeeds / cgenLoadSeeds: the parent hands its (sharded) seed list to the
@@ -800,7 +802,7 @@ func cgenSaveSeeds(path string, seeds []cgenSeed) error {
 	var buf bytes.Buffer
 	w := json.NewEncoder(&buf)
 	for _, s := range seeds {
-		if err := w.Encode(cgenSeedRec{s.ct.Name, s.devs, vlib.Hex(s.enc), s.unit}); err != nil {
+		if err := w.Encode(cgenSeedRec{s.ct.Name, s.devs, vlib.Hex(s.enc), s.unit, s.structural}); err != nil {
 			return err
 		}
 	}
@@ -823,7 +825,7 @@ func cgenLoadSeeds(path string) ([]cgenSeed, error) {
 		if ct == nil {
 			return nil, fmt.Errorf("cgen: unknown type %s in seed file", rec.T)
 		}
-		out = append(out, cgenSeed{ct, rec.D, vlib.Unhex(rec.E), rec.U})
+		out = append(out, cgenSeed{ct, rec.D, vlib.Unhex(rec.E), rec.U, rec.S})
 	}
 	return out, nil
 }
@@ -845,12 +847,14 @@ func cgenSeedsSel(ct *cgenType, k, maxLen int, structuralOnly bool) []cgenSeed {
 	var out []cgenSeed
 	seen := map[string]bool{}
 	cgenEnumerate(ct.T, k, ct.Ctx, func(devs []cgenDev, v reflect.Value, _ int) bool {
-		if structuralOnly {
-			for _, d := range devs {
-				if !cgenDevStructural(d) {
-					return true
-				}
+		structural := true
+		for _, d := range devs {
+			if !cgenDevStructural(d) {
+				structural = false
 			}
+		}
+		if structuralOnly && !structural {
+			return true
 		}
 		if ct.T == cgenTASO && v.Len() > 1 {
 			// AccumulatedServiceOutput.Encode ranges over the map unsorted (C11
@@ -867,7 +871,7 @@ func cgenSeedsSel(ct *cgenType, k, maxLen int, structuralOnly bool) []cgenSeed {
 			return true
 		}
 		seen[string(enc)] = true
-		out = append(out, cgenSeed{ct, append([]cgenDev(nil), devs...), enc, 0})
+		out = append(out, cgenSeed{ct, append([]cgenDev(nil), devs...), enc, 0, structural})
 		return true
 	})
 	return out
@@ -1061,23 +1065,44 @@ func cgenLocaliseKey(seed cgenSeed, m cgenMut, topKey string, pred func(ct *cgen
 	ptr := seed.Val()
 	for depth := 0; depth < 12; depth++ {
 		found := false
-		for _, sp := range cgenChildSpans(ptr, seed.enc, a, b) {
-			part := seed.enc[sp.a:sp.b]
-			if !(sp.a <= m.Pos && m.Pos < sp.b) {
-				continue
-			}
-			// the sub-decoder sees what it would see in context: the mutated string from the
-			// start of its own encoding to the end
-			in := w[sp.a:]
-			if cgenHugeLength(m) && cgenHot(sp.sub.ct, part, m.Pos-sp.a) {
-				// would make the sub-decoder allocate without bound: do not run it in-process
-				continue
-			}
-			if ok, k := pred(sp.sub.ct, in, part); ok {
-				cur, a, b, ptr = sp.sub.ct, sp.a, sp.b, sp.sub.ptr
-				key = k
-				found = true
-				break
+		spans := cgenChildSpans(ptr, seed.enc, a, b)
+		// first the child whose encoding contains the mutated position, then (a mutation can
+		// derail the decoding of what follows) the children after it, at their shifted offsets
+		delta := 0
+		if m.Kind == "ins" {
+			delta = len(vlib.Unhex(m.Val))
+		}
+		for pass := 0; pass < 2 && !found; pass++ {
+			for _, sp := range spans {
+				part := seed.enc[sp.a:sp.b]
+				var in []byte
+				if pass == 0 {
+					if !(sp.a <= m.Pos && m.Pos < sp.b) {
+						continue
+					}
+					// the sub-decoder sees what it would see in context: the mutated string from
+					// the start of its own encoding to the end
+					in = w[sp.a:]
+				} else {
+					if sp.a <= m.Pos || m.Kind == "prefix" || sp.a+delta > len(w) {
+						continue
+					}
+					in = w[sp.a+delta:]
+				}
+				if cgenHugeLength(m) && pass == 0 && cgenHot(sp.sub.ct, part, m.Pos-sp.a) {
+					// would make the sub-decoder allocate without bound: do not run it in-process
+					continue
+				}
+				if ok, k := pred(sp.sub.ct, in, part); ok {
+					cur, a, b, ptr = sp.sub.ct, sp.a, sp.b, sp.sub.ptr
+					key = k
+					found = true
+					if pass == 1 {
+						// the culprit decodes bytes that are not at the mutated position: stop here
+						return cur.Name, key
+					}
+					break
+				}
 			}
 		}
 		if !found {
